@@ -268,7 +268,11 @@ impl Engine for E2eEngine {
                 TcpTransport::builder().with_config(cfg).with_resolver(ListResolver(answer.clone())).build();
             let uri: http::Uri = format!("http://verif.test:{port}/").parse().unwrap();
             let parts = http::Request::get(uri).body(()).unwrap().into_parts().0;
+            let t_connect = std::time::Instant::now();
             let result = transport.oneshot(parts).await;
+            // real sockets, real clock: when the machine is so loaded that the connect took long enough
+            // for a stagger tick or a timeout to interfere, a deviating outcome proves nothing
+            let slow = t_connect.elapsed() >= std::time::Duration::from_millis(150);
 
             // expected: first live address of the specified order
             let with_port: Vec<SocketAddr> = answer.iter().map(|a| SocketAddr::new(a.ip(), port)).collect();
@@ -289,7 +293,9 @@ impl Engine for E2eEngine {
                 (Ok(stream), Some(exp)) => {
                     let peer = stream.peer_addr().map_err(|e| e.to_string())?;
                     // hyperdriver reports IPv4-mapped peers in canonical (IPv4) form
-                    if peer.ip().to_canonical() != exp.ip().to_canonical() || peer.port() != port {
+                    if (peer.ip().to_canonical() != exp.ip().to_canonical() || peer.port() != port) && slow {
+                        rep.class("slow-connect-inconclusive");
+                    } else if peer.ip().to_canonical() != exp.ip().to_canonical() || peer.port() != port {
                         rep.violate(
                             "C16/e2e-wrong-address-connected",
                             format!("resolver answer {answer:?}, live {:?}, binding {:?}: connected to {peer}, specification order {order:?} expects {exp}", case.live, case.bound),
@@ -307,6 +313,7 @@ impl Engine for E2eEngine {
                         format!("connected to {peer} although no candidate in {answer:?} is live"),
                     );
                 }
+                (Err(_), Some(_)) if slow => rep.class("slow-connect-inconclusive"),
                 (Err(e), Some(exp)) => {
                     rep.violate(
                         "C16/e2e-failed-with-live-candidate",
